@@ -81,6 +81,8 @@ class Numeric:
                             same_case = False
                     if not same_case:
                         continue
+                if p.get('live') and (p['vid'] not in st.iv or any(cv not in st.iv for cv in p['ctx'])):
+                    continue          # the value is not tracked in this result state any more
                 l, h = D.get_iv(st, p['vid'])
                 ok2 = p['min'][0] <= l and h <= p['max'][1]
                 if p.get('side') == 'hi':
@@ -171,6 +173,12 @@ class Numeric:
                     # possibly in the caller): O2 is applied to the end that this guard rejects
                     side = 'hi' if vl > h2 else 'lo' if vh < l1 else None
                 self.pending_o2.append({'k': key, 'fn': cfn, 'depth': cdepth, 'vid': val[1], 'min': (l1, h1), 'max': (l2, h2), 'o': o, 'ctx': ctxiv, 'side': side})
+                if side is not None and cdepth > 0 and ctxiv and all(a_ == b_ and cv_ not in D.CONSTVAL for cv_, (a_, b_) in ctxiv.items()):
+                    # the other end of the stated range is guarded by a sibling guard, possibly in the caller (validate_date rejects the days
+                    # above the last representable one, date_to_days the day 0).  When the case is exact -- the condition pins every other
+                    # integer argument to one value -- that end is compared with what the direct caller accepts in the same case.
+                    self.pending_o2.append({'k': key + ('caller',), 'fn': I.stack[cdepth - 1][0], 'depth': cdepth - 1, 'vid': val[1], 'min': (l1, h1), 'max': (l2, h2),
+                                            'o': o, 'ctx': ctxiv, 'side': 'lo' if side == 'hi' else 'hi', 'live': True})
 
     def _lit(self, v):
         if v[0] == 'str' and v[1].lits:
